@@ -114,3 +114,10 @@ package lib
 //@ lib func (b *bytes.Buffer) Len() (n int)
 //@   requires b != nil
 //@   ensures n >= 0
+
+// strings.IndexByte: first index of the byte, or -1
+//@ lib func strings.IndexByte(s string, c byte) (i int)
+//@   pure
+//@   ensures -1 <= i && i < len(s)
+//@   ensures i >= 0 ==> s[i] == c
+//@   ensures forall k int :: 0 <= k && k < len(s) && (i < 0 || k < i) ==> s[k] != c
